@@ -14,10 +14,6 @@ import (
 	"verifharness/internal/corr"
 )
 
-type areaFn func(r *corr.Run)
-
-var areas = map[string]areaFn{}
-
 func main() {
 	if len(os.Args) < 2 {
 		usage()
@@ -35,7 +31,7 @@ func main() {
 		model := fs.String("model", "", "model driver command (area name is appended)")
 		budget := fs.Duration("budget", 0, "soft time budget for generated cases")
 		fs.Parse(os.Args[3:])
-		fn, ok := areas[area]
+		fn, ok := corr.Areas[area]
 		if !ok {
 			fmt.Fprintln(os.Stderr, "unknown area", area)
 			os.Exit(2)
